@@ -7,7 +7,7 @@ HERE = os.path.dirname(os.path.abspath(__file__))
 TECH = "bounded model checking of the compiled Rust code: Kani 0.68 / CBMC 6.11 (CaDiCaL) over #[kani::proof] harnesses with kani::any() inputs"
 TECH_MIR = TECH + "; plus path-exploring symbolic execution of the rustc MIR of the real functions with z3 (mirsym)"
 MIR_ONLY = "path-exploring symbolic execution of the rustc MIR of the real functions (cargo +nightly rustc -Zunpretty=mir) with z3 deciding branch feasibility and the per-path obligations (mirsym)"
-MIRSYM = ("C01", "C11", "C04", "C19", "C18", "C02", "C08", "C09", "C05", "C12", "C20", "C07", "C16", "C13", "C03", "C10")
+MIRSYM = ("C01", "C11", "C04", "C19", "C18", "C02", "C08", "C09", "C05", "C12", "C20", "C07", "C16", "C13", "C03", "C10", "C14")
 MIR_ONLY_PROPS = ("C07", "C08", "C09")
 
 CLAIMS = {
@@ -51,7 +51,7 @@ CLAIMS = {
          "stat()/lstat()/readlink() are a symbolic world under the kernel's contract; Pattern::matches cut to true in the -lname harness; -empty on directories, -samefile, -user/-group names, symbolic -perm spelling (uucore) are outside.",
          "4 C13"),
  "C14": ("N/+N/-N trichotomy and monotonicity over all u64/i64; -size rounding = ceil(bytes/2^k) for all u64 and six units without overflow; SizeMatcher/LinksMatcher/InodeMatcher/uid/gid compose them on the selected record; named corollaries (-size -1k, -size 1M); unit suffix set.",
-         "Operand text -> number parsing uses the regex crate (Kani ICE): outside.",
+         "Operand text -> (comparison, N, unit): the regex crate is a Kani ICE; decided at MIR level instead (mirsym c11_operands.explore_values: convert_arg_to_comparable_value(_and_suffix) on 21 operand words incl. 2^64-1, 2^64, leading zeros, blanks, empty; regex crate = Python re on the pattern text in the MIR).",
          "4 C14"),
  "C15": ("-atime/-ctime/-mtime = floor(age/86400), -amin/-cmin/-mmin = floor(age/60) on each one's own timestamp for all (s,ns) pairs below 2^40 s with age >= 0; -newer strict at ns resolution with F's record per follow mode; -newerXY = entry.X > F.Y for the nine a/c/m combinations.",
          "-daystart (chrono Local), -newerXt / date parsing, the -newerXY option-name parser (regex crate), birth time are outside; F dangling is outside c15_newer_strict.",
